@@ -35,7 +35,9 @@
 EXTENDS Naturals, Sequences, FiniteSets, TLC
 
 CONSTANTS Leaves, Relays, Home,      \* Home[c] \in {"S"} \cup Relays
-          Auto,                      \* leaves that are real LocalCollectors over a scripted keeper (at most one per node):
+          RHome,                     \* RHome[r] \in {"S"} \cup Relays: the node whose pool relay r dials (a tree: relays
+                                     \* may hang off relays, as cmd fractal wires a PersistentRemoteSuperior to its own pool)
+          Auto,                      \* leaves that are real LocalCollectors over a scripted keeper (at most one below each top-level node):
                                      \* handed a targeted (signature) task they answer it at once with the report named
                                      \* after them; handed a quality task they find nothing and stay silent
           TaskIds, Payloads, QCap
@@ -52,14 +54,23 @@ Init == R = [lsubs |-> {}, conn |-> [r \in Relays |-> FALSE], rsubs |-> [r \in R
              got |-> [c \in Leaves |-> [t \in TaskIds |-> 0]]]
 
 Give(x, cs, t) == [x EXCEPT !.got = [c \in Leaves |-> IF c \in cs THEN [x.got[c] EXCEPT ![t] = @ + 1] ELSE x.got[c]]]
-Src(c) == IF Home[c] = "S" THEN c ELSE Home[c]                    \* M4
+RECURSIVE Root(_)
+Root(r) == IF RHome[r] = "S" THEN r ELSE Root(RHome[r])
+TopLevel == {r \in Relays : RHome[r] = "S"}
+Children(r) == {q \in Relays : RHome[q] = r}
+RECURSIVE Desc(_)
+Desc(r) == {r} \cup UNION {Desc(q) : q \in Children(r)}
+Src(c) == IF Home[c] = "S" THEN c ELSE Root(Home[c])              \* M4: the collector the superior sees
 \* the Auto leaf among cs (if any) answers the targeted task t: its report reaches the waiter through its node
 Answer(x, cs, t) == LET as == cs \cap Auto IN
                     IF as = {} \/ x.tasks[t].kind # "target" \/ ~x.tasks[t].open THEN x
                     ELSE LET c == CHOOSE c \in as : TRUE IN [x EXCEPT !.tasks[t].q[Src(c)] = Append(@, c)]
-\* relay r receives task t from S (M1, M2)
-RelayRecv(x, r, t) == Answer(Give(IF x.tasks[t].kind = "bcast" THEN [x EXCEPT !.rlatest[r] = t] ELSE x, x.rsubs[r], t), x.rsubs[r], t)
-RECURSIVE RelaysRecv(_, _, _)
+\* relay r receives task t from its parent (M1, M2): its own collectors get it, and so does every relay connected to
+\* its pool
+RECURSIVE RelayRecv(_, _, _), RelaysRecv(_, _, _)
+RelayRecv(x, r, t) ==
+  LET y == Answer(Give(IF x.tasks[t].kind = "bcast" THEN [x EXCEPT !.rlatest[r] = t] ELSE x, x.rsubs[r], t), x.rsubs[r], t)
+  IN RelaysRecv(y, {q \in Children(r) : y.conn[q]}, t)
 RelaysRecv(x, rs, t) == IF rs = {} THEN x ELSE LET r == CHOOSE r \in rs : TRUE IN RelaysRecv(RelayRecv(x, r, t), rs \ {r}, t)
 Connected(x) == {r \in Relays : x.conn[r]}
 
@@ -70,19 +81,25 @@ Subscribe(x, c) ==
   ELSE LET r == Home[c] y == [x EXCEPT !.rsubs[r] = @ \cup {c}] IN IF x.rlatest[r] # None THEN Give(y, {c}, x.rlatest[r]) ELSE y
 Unsubscribe(x, c) == IF Home[c] = "S" THEN [x EXCEPT !.lsubs = @ \ {c}] ELSE [x EXCEPT !.rsubs[Home[c]] = @ \ {c}]
 
-CanConnect(x, r) == ~x.conn[r]
-Connect(x, r) == LET y == [x EXCEPT !.conn[r] = TRUE] IN IF x.latest # None THEN RelayRecv(y, r, x.latest) ELSE y
-Disconnect(x, r) == [x EXCEPT !.conn[r] = FALSE, !.rsubs[r] = {}, !.rlatest[r] = None]
+\* a relay dials the pool of its parent node, which must be up; it is handed the parent's current quality task
+CanConnect(x, r) == ~x.conn[r] /\ (IF RHome[r] = "S" THEN TRUE ELSE x.conn[RHome[r]])
+ParentLatest(x, r) == IF RHome[r] = "S" THEN x.latest ELSE x.rlatest[RHome[r]]
+Connect(x, r) == LET y == [x EXCEPT !.conn[r] = TRUE] IN IF ParentLatest(x, r) # None THEN RelayRecv(y, r, ParentLatest(x, r)) ELSE y
+\* a relay that goes away takes everything below it with it
+Disconnect(x, r) == [x EXCEPT !.conn = [q \in Relays |-> IF q \in Desc(r) THEN FALSE ELSE @[q]],
+                              !.rsubs = [q \in Relays |-> IF q \in Desc(r) THEN {} ELSE @[q]],
+                              !.rlatest = [q \in Relays |-> IF q \in Desc(r) THEN None ELSE @[q]]]
 
 CanAdd(x, t) == x.tasks[t] = NoTask            \* a task id is used once
 EmptyQ == [s \in Sources |-> <<>>]
 AddBroadcast(x, t) ==
   LET y == [x EXCEPT !.tasks[t] = [kind |-> "bcast", target |-> None, open |-> TRUE, q |-> EmptyQ], !.latest = t]
-  IN RelaysRecv(Give(y, y.lsubs, t), Connected(y), t)
-\* the target is a collector of S: a direct leaf or a relay (a leaf behind a relay is not known at S: nothing is sent)
+  IN RelaysRecv(Give(y, y.lsubs, t), Connected(y) \cap TopLevel, t)
+\* the target is a collector of S: a direct leaf or a top-level relay (a leaf or relay behind a relay is not known at S:
+\* nothing is sent)
 AddTarget(x, t, tg) ==
   LET y == [x EXCEPT !.tasks[t] = [kind |-> "target", target |-> tg, open |-> TRUE, q |-> EmptyQ]]
-  IN IF tg \in Relays THEN (IF y.conn[tg] THEN RelayRecv(y, tg, t) ELSE y)
+  IN IF tg \in Relays THEN (IF tg \in TopLevel /\ y.conn[tg] THEN RelayRecv(y, tg, t) ELSE y)
      ELSE Answer(Give(y, y.lsubs \cap {tg}, t), y.lsubs \cap {tg}, t)
 
 Accepts(x, t) == x.tasks[t] # NoTask /\ x.tasks[t].open
@@ -109,7 +126,7 @@ Spec == Init /\ [][Next]_R
 Added(t) == R.tasks[t] # NoTask
 \* a targeted task reaches only its target (M1: a relay's leaves are "its target")
 TargetOnly == \A t \in TaskIds : Added(t) /\ R.tasks[t].kind = "target" =>
-                 \A c \in Leaves : R.got[c][t] > 0 => (R.tasks[t].target = c \/ R.tasks[t].target = Home[c])
+                 \A c \in Leaves : R.got[c][t] > 0 => (R.tasks[t].target = c \/ (Home[c] # "S" /\ R.tasks[t].target = Root(Home[c])))
 \* the current broadcast task has reached every collector subscribed anywhere in the connected tree
 BroadcastReaches == \A t \in TaskIds : R.latest = t =>
                       /\ \A c \in R.lsubs : R.got[c][t] >= 1
@@ -123,4 +140,6 @@ ReportOnlyToNamed == [][\A t \in TaskIds, s \in Sources : Added(t) /\ R'.tasks[t
                           /\ \A u \in TaskIds, v \in Sources : <<u, v>> # <<t, s>> /\ Added(u) => R'.tasks[u].q[v] = R.tasks[u].q[v]]_R
 NoDeliveryAfterRemove == [][\A t \in TaskIds : Added(t) /\ ~R.tasks[t].open => Unread(R', t) <= Unread(R, t)]_R
 Bounded == \A t \in TaskIds : Added(t) => Unread(R, t) <= QCap
+\* a relay is up only while the node it dialled is
+TreeUp == \A r \in Relays : R.conn[r] /\ RHome[r] # "S" => R.conn[RHome[r]]
 =============================================================================
